@@ -330,4 +330,21 @@ theorem C15.value_dtypes_ok_partial (vk : VKind) (h : vk ≠ .strWide) :
 /-- Counterexample on the model (finding C15-F3): wide string values make `_find_indices`
 raise, because the points are cast to the value dtype. -/
 theorem C15.wide_string_values_fail : findIndicesOutcome .strWide = .typeError := by decide
+
+/-- Sampling dispatch: whatever the calling convention of the user's callable (out-of-place
+only, dual use, in-place only) and whether or not `out` is given, every path through
+`sampling_function` / `dual_use_func` yields the user's array expression fitted to the output
+shape — so if that fitted expression equals the callable's values at the grid points
+(`target`), every path returns exactly those values.  `fit` (NumPy assignment / broadcasting /
+equal-size reshape) is a parameter, assumed idempotent. -/
+theorem C15.collocate_paths_agree {A : Type} (fit : A → A) (hfit : ∀ a, fit (fit a) = fit a)
+    (k : CallKind) (outGiven : Bool) (e target : A) (he : fit e = target) :
+    sampleVia fit k outGiven e = target := by
+  subst he
+  cases k <;> cases outGiven <;> simp [sampleVia, userCall, userGetsOut, hfit]
+
+/-- Non-vacuity: `fit` = broadcasting a list to length 3 (idempotent); a constant return value
+`[7]` reaches the full array on the in-place-only / no-`out` path. -/
+example : sampleVia (fun l : List Nat => List.replicate 3 (l.headD 0)) .ipOnly false [7] = [7, 7, 7] := by
+  decide
 end
